@@ -216,6 +216,7 @@ class World:
             noise_psk=base64.b64encode(self.psk).decode() if noise else None,
             expected_name=expected_name,
         )
+        self.expected_password = password  # what a ConnectRequest must carry (client runs set it to the client's own)
         self.conn = None
         if not client:
             # debug: the library's debug-logging paths are on (what it sends, delivers and decides must not depend on them)
@@ -279,7 +280,7 @@ class World:
 
                 r = api_pb2.ConnectRequest()
                 r.ParseFromString(payload)
-                if r.password != (self.params.password or ""):
+                if r.password != (self.expected_password or ""):
                     name += ":wrong_password"
             self.step_writes.append(name)
             self.step_frames.append((t, payload))
